@@ -143,10 +143,21 @@ def expect_query(sc, q):
         if what in ("resp", "resptc", "resp2", "resplie", "Jcase", "Jquery") or what.startswith("big"):
             acc = (ta, what)
             break
+        if what.startswith("X") and spec_accept(bytes.fromhex(what[1:])[:buf], b"\x00\x00", q.name, q.qtype, q.qclass) is not None:
+            acc = (ta, what)                     # a checker-made datagram (id field = XOR delta 0000) that the RFC filter accepts
+            break
     if acc is None:
         return {"kind": "err:Timeout", "sends": len(sends), "tcp": 0, "t": life}
     ta, what = acc
     nsent = len([s for s in sends if s <= ta])
+    xd = bytes.fromhex(what[1:])[:buf] if what.startswith("X") else None
+    if xd is not None and (int.from_bytes(xd[2:4], "big") & 0x0200) and sc.strategy == "udp":
+        k, body, t = tcp_expect(sc, q, ta, buf)
+        if t >= life and k == "ok":
+            k, body, t = "err:Timeout", None, life
+        return {"kind": k, "payload": body, "t": min(t, life), "sends": nsent, "tcp": 1}
+    if xd is not None:
+        return {"kind": "ok", "payload": xd, "t": ta, "sends": nsent, "tcp": 0, "what": what}
     if what == "resptc" and sc.strategy == "udp":
         k, body, t = tcp_expect(sc, q, ta, buf)
         if t >= life and k == "ok":
@@ -361,6 +372,13 @@ def gen_scenario(rng, focus, client=None, variant=0):
         strategy = rng.choice(["udp", "tcp", "notcp"])
         pre = [(8 * i, "J" + rng.choice(JUNK)) for i in range(rng.choice([0, 0, 2, 4]))]
         fin = rng.choice(["resp", "resptc", "resptc"])
+        if variant % 6 == 4:
+            # a TRUNCATED answer whose response code is not NOERROR (NXDOMAIN, SERVFAIL, REFUSED, FORMERR, a
+            # reserved code): truncation is truncation — TCP under the default strategy, returned as is under notcp
+            strategy = rng.choice(["udp", "udp", "notcp"])
+            d = bytearray(response_bytes(name, qtype, 1, tc=True))
+            d[3] = (d[3] & 0xf0) | rng.choice([1, 2, 3, 5, 11, 15])
+            fin = "X" + hx(bytes(d))
         if variant % 6 == 2:
             # an UNtruncated answer that fills the caller's buffer exactly (or is one octet shorter, or is
             # clipped by the receive call): it is an answer like any other — no TCP connection
